@@ -27,7 +27,7 @@ theorem net_committed_proof_validates (hwf : WF C) {net : Net} (hr : Reach C net
     (blk : Block) (cs : List CMsg) (hcommit : Out.commit blk cs ∈ net.outs i) (hheight : blk.height = C.height) :
     ∃ p, BlockProof.generate cs true = some p ∧
       BlockProof.validate ⟨false, some blk, some p, C.inst, C.ms, false⟩ = .ok :=
-  (reach_blocks hwf hr hA2 i hi hmi).2.2.2 blk cs hcommit hheight
+  (reach_blocks hwf hr hA2 i hi hmi).2.2.2.1 blk cs hcommit hheight
 
 /-- non-vacuity: in the 13-step execution of `C01Net`, member 2's commit callback got a certificate
 that validates -/
